@@ -16,7 +16,25 @@ HARNESS = dict(
     extra_srcs=[(os.path.join(cbuild.REPO, "source", "uri.c"),
                  ["-fno-sanitize=nonnull-attribute", "-DUSE_SIMD_ENCODING"], "uri_src")],
 )
-TRUSTED = ["hand model lean/AwsVerif/Model/Uri.lean (tied by this correspondence run only)",
+
+
+def regen(ctx):
+    """generated layer: safe-character tests, s_to_uppercase_hex, scheme-delimiter and port-bound tests, the builder's size
+    estimate, PORT_BUFFER_SIZE and the reservation calls of the coders, cut out of /repo's current uri.c (gen/uri_gen.py);
+    aws_isalnum comes from the generated AwsVerif.Gen.ByteBufFns (gen/bytebuf_fns.py, shared with C01)"""
+    from lib import core
+    from gen import uri_gen, bytebuf_fns, cfun
+    try:
+        fns, _ = bytebuf_fns.generate(cbuild.REPO, cbuild.config_include())
+        txt, _ = uri_gen.generate(cbuild.REPO, cbuild.config_include())
+    except cfun.GenError as e:
+        raise core.GenError(str(e))
+    core.write_if_changed(os.path.join(core.LEAN, "AwsVerif", "Gen", "ByteBufFns.lean"), fns)
+    core.write_if_changed(os.path.join(core.LEAN, "AwsVerif", "Gen", "UriFns.lean"), txt)
+
+
+TRUSTED = ["translator gen/uri_gen.py + gen/cfun.py (clang-14 AST -> Lean) for the generated layer AwsVerif/Gen/UriFns.lean",
+           "hand model lean/AwsVerif/Model/Uri.lean (tied by this correspondence run only)",
            "python reference coders (urllib.parse.quote / unquote_to_bytes) and component oracle in props/c13.py"]
 ASSUMPTIONS = ["allocation does not fail (aws_mem_acquire aborts on NULL)",
                "component tuples satisfy Comp.ok (Proofs/C13/Spec.lean): scheme without ':/?#@[]', userinfo without '@/?', host without "
